@@ -7,7 +7,8 @@ lean/OpacusLean/Generated/PreStep.lean, re-generated from the tree under test on
       `if self._check_skip_next_step(): self._is_last_step_skipped = True; return False` → skipCheck
       `self.add_noise()` → addNoise,  `self.scale_grad()` → scaleGrad,
       `if self.step_hook: self.step_hook(self)` → hook,  `self._is_last_step_skipped = False` → clearSkipped,  `return True` → proceed
-    Any other statement is outside the subset.
+    A no-argument helper method of the same class (`self._noise_and_scale()`) is followed and its phases are taken in place; `skip = self._check_skip_next_step()`
+    followed at once by `if skip: …` is the skip test.  Any other statement is outside the subset.
 (2) `DPOptimizer.step`: that the inner optimizer's `step()` runs exactly when `pre_step()` returned true
     (`if self.pre_step(): return self.original_optimizer.step() else: return None`, a closure block before it is skipped).
 (3) `IAccountant.get_optimizer_hook_fn`: the two keyword arguments of the `self.step(...)` call of the hook, as real expressions of the
@@ -35,31 +36,54 @@ def _nodoc(stmts):
 
 
 def phases(rel, cls):
-    fn = find_function(ast.parse((Path(core.REPO) / rel).read_text()), "pre_step", cls=cls)
-    out = []
-    for s in _nodoc(fn.body):
-        u = ast.unparse(s)
-        if isinstance(s, ast.If) and not s.orelse and ast.unparse(s.test) in ("self.grad_samples is None or len(self.grad_samples) == 0", "not self.grad_samples") \
-                and [ast.unparse(b) for b in s.body] == ["return True"]:
-            out.append("noParamsShortcut")
-        elif u in ("self.clip_and_accumulate()", "self.accumulate()"):
-            out.append("clipAccumulate")
-        elif isinstance(s, ast.If) and not s.orelse and ast.unparse(s.test) == "self._check_skip_next_step()" \
-                and [ast.unparse(b) for b in s.body] == ["self._is_last_step_skipped = True", "return False"]:
-            out.append("skipCheck")
-        elif u == "self.add_noise()":
-            out.append("addNoise")
-        elif u == "self.scale_grad()":
-            out.append("scaleGrad")
-        elif isinstance(s, ast.If) and not s.orelse and ast.unparse(s.test) in ("self.step_hook", "self.step_hook is not None") and [ast.unparse(b) for b in s.body] == ["self.step_hook(self)"]:
-            out.append("hook")
-        elif u == "self._is_last_step_skipped = False":
-            out.append("clearSkipped")
-        elif u == "return True":
-            out.append("proceed")
-        else:
-            raise Untranslatable(f"{cls}.pre_step statement " + u[:100])
-    return out
+    tree = ast.parse((Path(core.REPO) / rel).read_text())
+    cnode = [c for c in tree.body if isinstance(c, ast.ClassDef) and c.name == cls]
+    if not cnode:
+        raise Untranslatable(f"class {cls} not found")
+    methods = {f.name: f for f in cnode[0].body if isinstance(f, ast.FunctionDef)}
+    fn = find_function(tree, "pre_step", cls=cls)
+
+    def walk(stmts, depth, top):
+        out = []
+        stmts = _nodoc(stmts)
+        k = 0
+        while k < len(stmts):
+            s = stmts[k]
+            k += 1
+            u = ast.unparse(s)
+            if top and isinstance(s, ast.If) and not s.orelse and ast.unparse(s.test) in ("self.grad_samples is None or len(self.grad_samples) == 0", "not self.grad_samples") \
+                    and [ast.unparse(b) for b in s.body] == ["return True"]:
+                out.append("noParamsShortcut")
+            elif u in ("self.clip_and_accumulate()", "self.accumulate()"):
+                out.append("clipAccumulate")
+            elif top and isinstance(s, ast.Assign) and len(s.targets) == 1 and isinstance(s.targets[0], ast.Name) and ast.unparse(s.value) == "self._check_skip_next_step()" \
+                    and k < len(stmts) and isinstance(stmts[k], ast.If) and not stmts[k].orelse and ast.unparse(stmts[k].test) == s.targets[0].id \
+                    and [ast.unparse(b) for b in stmts[k].body] == ["self._is_last_step_skipped = True", "return False"]:
+                out.append("skipCheck")          # `skip = self._check_skip_next_step(); if skip: …` – the signal is consumed at the call
+                k += 1
+            elif top and isinstance(s, ast.If) and not s.orelse and ast.unparse(s.test) == "self._check_skip_next_step()" \
+                    and [ast.unparse(b) for b in s.body] == ["self._is_last_step_skipped = True", "return False"]:
+                out.append("skipCheck")
+            elif u == "self.add_noise()":
+                out.append("addNoise")
+            elif u == "self.scale_grad()":
+                out.append("scaleGrad")
+            elif isinstance(s, ast.If) and not s.orelse and ast.unparse(s.test) in ("self.step_hook", "self.step_hook is not None") and [ast.unparse(b) for b in s.body] == ["self.step_hook(self)"]:
+                out.append("hook")
+            elif u == "self._is_last_step_skipped = False":
+                out.append("clearSkipped")
+            elif top and u == "return True":
+                out.append("proceed")
+            elif not top and u in ("return", "return None"):
+                pass
+            elif isinstance(s, ast.Expr) and isinstance(s.value, ast.Call) and isinstance(s.value.func, ast.Attribute) and ast.unparse(s.value.func.value) == "self" \
+                    and not s.value.args and not s.value.keywords and s.value.func.attr in methods and depth < 3 and s.value.func.attr != "pre_step":
+                out += walk(methods[s.value.func.attr].body, depth + 1, False)      # a helper method of the same class: its phases in place
+            else:
+                raise Untranslatable(f"{cls}.pre_step statement " + u[:100])
+        return out
+
+    return walk(fn.body, 0, True)
 
 
 def step_gate():
